@@ -28,6 +28,12 @@ Proof. vm_compute. reflexivity. Qed.
 Lemma send_net_wf_iff_no_violation :
   wf send_net = match wf_violations send_net with [] => true | _ => false end.
 Proof. vm_compute. reflexivity. Qed.
+(* since the fix "make the sender's buffer-size probing wait cancellable" the generated send
+   net has no violation at all *)
+Lemma send_net_wf : wf send_net = true.
+Proof. vm_compute. reflexivity. Qed.
+Lemma send_net_no_violations : wf_violations send_net = [].
+Proof. vm_compute. reflexivity. Qed.
 (* apart from that wait (assumed to return) the send net is well-formed *)
 Lemma send_net_assumed_wf : wf (assume_wg_returns send_net) = true.
 Proof. vm_compute. reflexivity. Qed.
